@@ -153,13 +153,10 @@ def confirm_real_typeshed(it: dict[str, Any], leg: str, tag: str) -> bool:
         finally:
             h.close()
         return check_run(r, "real_typeshed") is not None and check_run(r, "x")["kind"] != "malformed_message_line"  # type: ignore[index]
-    argv = [a for a in it["argv"] if not a.startswith("-")]
-    t0 = 1_000_000_000.0
-    orig = {p: t for p, t in it["files"].items() if p not in FIXTURE_FILES}
-    steps = [
-        {"files": orig, "mt": {p: t0 for p in orig}, "request": {"cmd": "check", "files": argv}},
-        {"files": files, "mt": dict({p: t0 for p in files}, **{it["target"]: t0 + 2}), "request": {"cmd": "check", "files": argv}},
-    ]
+    # the same requests as in eval_daemon (incl. the variant in which the damaged file is new to the daemon),
+    # on the program without the fixture stubs
+    steps = [dict(st, files={p: t for p, t in st["files"].items() if p not in FIXTURE_FILES},
+                  mt={p: t for p, t in st["mt"].items() if p not in FIXTURE_FILES}) for st in daemon_steps(it)]
     root = kit.new_dir(f"c20-{os.getpid()}-{tag}rtd")
     try:
         got = kit.fork_call(daemonsim.history_child, root, None, flags, steps, {"real_typeshed": True}, timeout=240, output_path=os.path.join(root, "child.out"))
@@ -209,14 +206,9 @@ def eval_batch(it: dict[str, Any], tag: str) -> dict[str, Any]:
     return out
 
 
-def eval_daemon(it: dict[str, Any], tag: str) -> dict[str, Any]:
-    out: dict[str, Any] = {"violation": None, "skipped": None, "runs": 0, "nontrivial": False}
-    flags = [f for f in it["flags"]]
+def daemon_steps(it: dict[str, Any]) -> list[dict[str, Any]]:
     files0 = dict(it["files"])
     argv = [a for a in it["argv"] if not a.startswith("-")]
-    if not argv:
-        out["skipped"] = "case is driven by -m/-p"
-        return out
     t0 = 1_000_000_000.0
     mt0 = {p: t0 for p in files0}
     f1 = dict(files0, **{it["target"]: it["mutated"]})
@@ -238,6 +230,18 @@ def eval_daemon(it: dict[str, Any], tag: str) -> dict[str, Any]:
             {"files": f1, "mt": mt1, "request": {"cmd": "check", "files": argv2}},
             {"files": files0, "mt": mt2, "request": {"cmd": "check", "files": argv2}},
         ]
+    return steps
+
+
+def eval_daemon(it: dict[str, Any], tag: str) -> dict[str, Any]:
+    out: dict[str, Any] = {"violation": None, "skipped": None, "runs": 0, "nontrivial": False}
+    flags = [f for f in it["flags"]]
+    files0 = dict(it["files"])
+    argv = [a for a in it["argv"] if not a.startswith("-")]
+    if not argv:
+        out["skipped"] = "case is driven by -m/-p"
+        return out
+    steps = daemon_steps(it)
     root = kit.new_dir(f"c20-{os.getpid()}-{tag}d")
     try:
         try:
@@ -368,11 +372,24 @@ def run(tier: str) -> int:
     n = 420 if tier == "quick" else len(fam)
     idx = [fam[j] for j in kit.sample_indices(PROP, "family", len(fam), n)]
     items = [("batch", i) for i in idx] + [("daemon", i) for i in idx[:: 2 if tier == "quick" else 1]]
+    if tier == "quick":
+        # most corpus programs are a single main.py; make sure the quick sample also holds daemon members in
+        # which the damaged file is one the daemon has never seen before (same family, chosen by the seed)
+        rs = kit.rng_for(PROP, "appear-sample")
+        extra: list[int] = []
+        for j in rs.sample(range(len(fam)), min(len(fam), 2500)):
+            if len(extra) >= 120:
+                break
+            if fam[j] % 3 != 0 and item_for(fam[j])["appear"] and fam[j] not in idx:
+                extra.append(fam[j])
+        items += [("daemon", i) for i in sorted(extra)]
     only = os.environ.get("VERIF_C20_RANGE")
     if only:
         lo, hi, step = (int(x) for x in only.split(":"))
         idx = list(range(lo, min(hi, total), step))
         items = [("batch", i) for i in idx] + [("daemon", i) for i in idx]
+    if os.environ.get("VERIF_C20_LEG"):
+        items = [it_ for it_ in items if it_[0] == os.environ["VERIF_C20_LEG"]]
     known = kit.load_known_findings(PROP)
     results, skipped = kit.run_pool(task, items, budget_s=900 if tier == "quick" else 6 * 3600)
     by_class: dict[str, list[dict[str, Any]]] = {}
